@@ -405,3 +405,36 @@ PROPS['C04'] = dict(
         [dict(target='races-off', family='races_off', mode='random', cases=6000, workers=8, timeout=3000, racy=True),
          dict(target='races-thr', family='races_thread', mode='random', cases=6000, workers=8, timeout=3000, racy=True)]),
 )
+
+# Additions made after the seeded rounds (appended to the level texts above; see DESIGN.md section 11)
+_EXTRA = {
+    'C01': 'Producer kinds include a Set whose value construction throws (then drop / Set again) and a Promise overwritten '
+           'by move-assignment; consumer kinds include an overwritten Future and a Future returned from a continuation '
+           'of another chain (flattening) consumed by DetachInline or Get.',
+    'C06': 'The fulfiller may first call Set with a value whose construction throws (the SharedPromise must stay valid).',
+    'C19': 'A volatile-qualified pass covers the overloads that instantiate (load, store, exchange, conversion, fetch_*), '
+           'and the 45 named aliases are compared with std\'s by the type of load().',
+    'C17': 'Programs also contain try-once weak CAS bursts and timed locks with a timeout that really fires; the virtual '
+           'time that elapses during each step is part of the compared results.',
+    'C07': 'Jobs may re-submit a child from Call or Drop, odd submitters may feed the inner strand of a 2-strand stack '
+           'directly, and a finished job node may be submitted a second time (stale next link).',
+    'C08': 'Under SoftStop a job submitted from inside a running job (Submit returned before the closing Stop began) is '
+           'never Dropped.',
+    'C14': 'Lock forms also include the guard-object API (deferred guard, guard.TryLock / Lock / Release, a give-up path '
+           'that drops a guard which does not own the lock).',
+    'C15': 'Forms also include deferred UniqueGuard / SharedGuard objects with guard.TryLock / Lock and a give-up path.',
+    'C13': 'Also generated: an executor stopped by the coroutine itself while it runs on it (then On / kYield / AwaitOn), '
+           'awaited futures completed by other coroutines reaching their end, Await(task) on an lvalue incl. destroying '
+           'the completed Task, co_return of a value whose copy throws (Future / Task / SharedFuture coroutines).',
+    'C12': 'Heads also include coroutine Tasks (frame-owned Tracked parameter) and LazyContract (one start shape excluded '
+           'as a known finding); the Await start mode also reads the Result in place and destroys the completed Task.',
+    'C20': 'Wait ranges cover Future and FutureOn handles (value and void); step functors carry a heap-owning copyable '
+           'capture moved in from outside the measured window, so a copied functor costs a visible block.',
+    'C05': '(c) chains over the library\'s real executors (pool, strands, manual) incl. a RunShared source with inherited '
+           'Then(f) / Subscribe(f): an accepted Then(e, f) / Then(f) step never runs inline in the attaching or fulfilling '
+           'fiber, refused steps see StopError and the chain completes.',
+    'C02': 'Returned Tasks include Schedule(e) heads (also as two-core chains) on the step\'s own or the other executor; '
+           'eager sources include AsyncContract with a Promise-taking functor.',
+}
+for _k, _t in _EXTRA.items():
+    PROPS[_k]['level_text'] = PROPS[_k]['level_text'].rstrip() + ' ' + _t
